@@ -92,14 +92,14 @@ class Ctx:
             self.cov["coverage_actions"][a] = self.cov["coverage_actions"].get(a, 0) + n
 
     def model_check(self, module: str, cfg: str, *, required_actions=None, export=False,
-                    env=None, timeout=900, note=""):
+                    env=None, timeout=900, note="", workers="auto"):
         """Model-check an instance.  A violated invariant of the *design* is a
         machinery failure of this framework (the specification must satisfy its
         own properties); returns (result, exported cases or None)."""
         tag = f"{self.prop}_{cfg.replace('.cfg', '')}"
         out = tlc.workdir() / f"export_{tag}.json" if export else None
         res = tlc.check_model(module, tag=tag, cfg=cfg, env=env, timeout=timeout,
-                              required_actions=required_actions, export=out)
+                              required_actions=required_actions, export=out, workers=workers)
         if res.violated:
             raise MachineryError(f"specification instance {cfg} violates {res.violated}:\n"
                                  f"{res.output[-2500:]}")
@@ -118,8 +118,20 @@ class Ctx:
         `corrupt(trace) -> trace|None` builds the negative control from one trace."""
         rejected = []
         n_ok = 0
-        for start in range(0, len(traces), batch):
-            chunk = traces[start:start + batch]
+        # batches bounded by number of traces and of events; validated by concurrent TLC processes
+        chunks, cur, nev, start0 = [], [], 0, 0
+        for k, tr in enumerate(traces):
+            ne = len(tr.get("events", ())) if isinstance(tr, dict) else 1
+            if cur and (len(cur) >= batch or nev + ne > 40000):
+                chunks.append((start0, cur))
+                cur, nev, start0 = [], 0, k
+            cur.append(tr)
+            nev += ne
+        if cur:
+            chunks.append((start0, cur))
+
+        def one(item):
+            start, chunk = item
             payload = list(chunk)
             control_at = None
             if corrupt is not None:
@@ -131,6 +143,15 @@ class Ctx:
                         break
             acc, prog, res = tlc.validate_traces(module, payload, tag=f"{self.prop}_{label}_{start}",
                                                  cfg=cfg, timeout=timeout)
+            return start, chunk, control_at, acc, prog, res
+
+        if len(chunks) > 1:
+            from concurrent.futures import ThreadPoolExecutor
+            with ThreadPoolExecutor(max_workers=6) as ex:
+                results = list(ex.map(one, chunks))
+        else:
+            results = [one(c) for c in chunks]
+        for start, chunk, control_at, acc, prog, res in results:
             if res.violated:
                 # an invariant of the specification failed on a recorded trace
                 self.notes.setdefault("trace_invariant_violations", []).append(res.violated)
